@@ -96,8 +96,14 @@ def inject(text, kind, rng):
                     after_eq = True
                 elif t.text in (";", ",", "{", "}"):
                     after_eq = False
-                elif after_eq and t.kind == "id" and t.text not in lexer.KEYWORDS and not (i + 1 < len(toks) and toks[i + 1].text == "("):
-                    uses.append(t)
+                elif after_eq and t.kind == "id" and t.text not in lexer.KEYWORDS:
+                    # a name followed by '(' (possibly after a line continuation) is a template or function name, not a
+                    # plain use
+                    j = i + 1
+                    while j < len(toks) and toks[j].text == "\\":
+                        j += 1
+                    if not (j < len(toks) and toks[j].text == "("):
+                        uses.append(t)
         uses = [t for t in uses if not (toks.index(t) > 0 and toks[toks.index(t) - 1].text == ".")]
         if not uses:
             return None
